@@ -126,6 +126,20 @@ def check_state(rec, B, tg, tp, r, obs_g, obs_p, rng, bits=True, polys=2, dense_
             rec.check("query.pure.arg", np.array_equal(h2[0], hg) and np.array_equal(h2[1], hp) and np.allclose(h2[2], hc, atol=1e-7)
                       and ok2 and abs(_num(B, x2) - _num(B, x)) < 1e-6 * (1 + abs(_num(B, x))), case, nt_state,
                       expected="polynomial unchanged, same value on the second call", observed={"second": _num(B, x2) if ok2 else None})
+    # --- coefficients handed over as REAL numbers (a float array / tensor given to set_cs) next to odd phases: the value is complex
+    Lp = int(rng.integers(1, 4))
+    idx = rng.integers(0, len(obs_g), Lp)
+    gs_, ps_ = obs_g[idx].copy(), rng.integers(0, 4, Lp)
+    ps_[0] = 1 + 2 * int(rng.integers(2))
+    cr = np.round(rng.normal(size=Lp) + 1.5, 3)
+    Hr = B.Poly(gs_, ps_, cr.astype(complex))
+    Hr.set_cs(np.asarray(cr, dtype=np.float64) if B.name == "np" else B.torch.tensor(cr, dtype=B.torch.float32))
+    wantc = np.trace(R @ O.dense_poly(gs_, ps_, cr.astype(complex)))
+    case = {"state": sc, "poly": [[O.show(g, p), float(c)] for g, p, c in zip(gs_, ps_, cr)], "coefficients": "real dtype"}
+    ok, x = rec.attempt("exp.poly.realcs", case, lambda: S.expect(Hr))
+    if ok:
+        rec.check("exp.poly.realcs", abs(_num(B, x) - wantc) < 1e-5 * (1 + np.abs(cr).sum()), case, nt_state and abs(wantc) > 1e-9,
+                  expected=wantc, observed=_num(B, x))
     # --- coefficients of any magnitude: the expectation is linear in them (relative, not absolute, accuracy)
     for scale in (1e-12, 1e-34, 1e+9):
         Lp = int(rng.integers(1, 4))
